@@ -4,8 +4,8 @@ From Coq Require Import String List NArith ZArith Bool.
 From J5V.lib Require Import Outcome.
 From J5V.model Require Import ReflectDesc ReflectSchema Reflect ReflectSpec.
 From J5V.gen Require ReflectGen.
-From J5V.proofs Require Import ReflectProofs ExportProofs ReflectInvProofs ReflectPathProofs ReflectFuelProofs ReflectFlattenProofs ReflectCodecProofs.
-From J5V.model Require Import Export.
+From J5V.proofs Require Import ReflectProofs ExportProofs ReflectInvProofs ReflectPathProofs ReflectFuelProofs ReflectFlattenProofs ReflectCodecProofs ReflectDeclProofs.
+From J5V.model Require Import Export ReflectDecl.
 Import ListNotations.
 
 (* The property at full strength, for every abstract descriptor set [D] (no hypothesis at all)
@@ -149,6 +149,64 @@ Theorem C18_reflect_consistent : forall D fs S,
   wf_paths D -> reflect D fs = Ok S -> set_consistent D S = true.
 Proof. exact reflect_consistent. Qed.
 Print Assumptions C18_reflect_consistent.
+
+(* ---- the reader against an independent, declarative description (model/ReflectDecl.v: the schema of a
+   descriptor as a function of the descriptor set alone: no schema set, no placeholder, no recursion
+   through references). Under wf_keys every entry a successful reflection links is the declared schema
+   of the descriptor of its name: enums [build_enum e], messages [decl_root D m] together with the
+   schemas of their exposed oneofs [decl_oneof_of m e]. *)
+Theorem C18_reader_links_the_declared_schemas : forall D, wf_keys D -> forall fs S,
+  reflect D fs = Ok S ->
+  (forall e r, In e (d_enums D) -> lookup S (enum_key e) = Some (Linked r) -> build_enum e = Ok r) /\
+  (forall m r, In m (d_msgs D) -> lookup S (msg_key m) = Some (Linked r) ->
+     decl_root D m = ROk r /\
+     forall exs ps e, decl_props D m = ROk (exs, ps) -> In e exs ->
+       lookup S (ex_key e) = Some (Linked (decl_oneof_of m e))).
+Proof. exact reflect_declared. Qed.
+Print Assumptions C18_reader_links_the_declared_schemas.
+
+(* ---- cache transparency (SchemaCache.Schema), values: for any two call histories (successful and
+   failed calls, any messages, any order) the answers for one message are the SAME schema, and the
+   caches hold the same schemas for its exposed oneofs; in particular the answer of a cache with any
+   history equals the answer of a fresh cache whenever both answer. A failed call leaves the cache
+   exactly as it was (the roll-back; in the model by definition of cache_schema, on the code by the
+   shared-cache history stream), and a name already held is answered from the cache, unchanged.
+   NOT proved: that a cache with a history answers Ok exactly when a fresh cache does (class
+   transparency; needs the characterisation of the reader's acceptance by the closure of the
+   message): that half is checked per case (oracle "answer depends on earlier failed builds",
+   correspondence of the history stream) and stays partial. *)
+Theorem C18_cache_answers_agree : forall D, wf_keys D -> forall st st' m r r',
+  cache_reach D st -> cache_reach D st' -> In m (d_msgs D) ->
+  snd (cache_schema D (size D) st m) = Ok r -> snd (cache_schema D (size D) st' m) = Ok r' ->
+  r = r' /\
+  (forall exs ps e, decl_props D m = ROk (exs, ps) -> In e exs ->
+     lookup (fst (cache_schema D (size D) st m)) (ex_key e) = Some (Linked (decl_oneof_of m e)) /\
+     lookup (fst (cache_schema D (size D) st' m)) (ex_key e) = Some (Linked (decl_oneof_of m e))).
+Proof. exact cache_answers_agree. Qed.
+Print Assumptions C18_cache_answers_agree.
+
+Theorem C18_cache_answer_is_fresh_answer : forall D, wf_keys D -> forall st m r r',
+  cache_reach D st -> In m (d_msgs D) ->
+  snd (cache_schema D (size D) st m) = Ok r -> snd (cache_schema D (size D) [] m) = Ok r' -> r = r'.
+Proof. exact cache_answer_is_fresh_answer. Qed.
+Print Assumptions C18_cache_answer_is_fresh_answer.
+
+Theorem C18_cache_states_agree : forall D, wf_keys D -> forall st st',
+  cache_reach D st -> cache_reach D st' ->
+  (forall m r r', In m (d_msgs D) -> lookup st (msg_key m) = Some (Linked r) -> lookup st' (msg_key m) = Some (Linked r') -> r = r') /\
+  (forall e r r', In e (d_enums D) -> lookup st (enum_key e) = Some (Linked r) -> lookup st' (enum_key e) = Some (Linked r') -> r = r').
+Proof. exact cache_states_agree. Qed.
+Print Assumptions C18_cache_states_agree.
+
+Theorem C18_cache_failed_call_rolls_back : forall D fuel st m,
+  (forall r, snd (cache_schema D fuel st m) <> Ok r) -> fst (cache_schema D fuel st m) = st.
+Proof. exact cache_failed_call_unchanged. Qed.
+Print Assumptions C18_cache_failed_call_rolls_back.
+
+Theorem C18_cache_hit : forall D fuel st m r,
+  lookup st (msg_key m) = Some (Linked r) -> cache_schema D fuel st m = (st, Ok r).
+Proof. exact cache_hit. Qed.
+Print Assumptions C18_cache_hit.
 
 (* each proto kind is handled by an arm or rejected with an error, as the Go switches list them *)
 Theorem C18_scalar_arms_are_the_code's :
@@ -341,3 +399,19 @@ Example C18_example_codec :
       | _ => false
       end) (d_msgs ex_desc) = true.
 Proof. eexists. split; vm_compute; reflexivity. Qed.
+
+(* the cache theorems' hypotheses on the example: two histories (Peer then Node; Node alone) reach
+   states that answer Node with the same schema, which is the declared one *)
+Example C18_example_cache :
+  wf_keys ex_desc /\
+  exists mN mP, In mN (d_msgs ex_desc) /\ In mP (d_msgs ex_desc) /\
+    let st1 := fst (cache_schema ex_desc (size ex_desc) [] mP) in
+    cache_reach ex_desc st1 /\
+    exists r, snd (cache_schema ex_desc (size ex_desc) st1 mN) = Ok r /\
+              snd (cache_schema ex_desc (size ex_desc) [] mN) = Ok r /\ decl_root ex_desc mN = ROk r.
+Proof.
+  split; [apply wf_desc_b_sound; vm_compute; reflexivity|].
+  eexists. eexists. split; [left; reflexivity|]. split; [right; left; reflexivity|].
+  cbv zeta. split; [apply reach_call; [apply reach_new|right; left; reflexivity]|].
+  eexists. split; [vm_compute; reflexivity|]. split; vm_compute; reflexivity.
+Qed.
